@@ -36,6 +36,9 @@ type World struct {
 	ByObj     map[*types.Func]*FuncInfo
 	Externs   *ExternSpecs
 	Guarded   []GuardDecl
+	// no statement outside package analysis assigns to a field or element of a type declared in package analysis
+	AnalysisImmutable bool
+	ImmutabilityNotes []string
 }
 
 type FuncInfo struct {
@@ -161,6 +164,7 @@ func loadWorld() (*World, error) {
 			}
 		}
 	}
+	w.checkAnalysisImmutability()
 	ex, err := loadExternSpecs(filepath.Join(verifDir, "contracts", "extern"))
 	if err != nil {
 		return nil, err
@@ -347,4 +351,65 @@ func loadExternSpecs(dir string) (*ExternSpecs, error) {
 		}
 	}
 	return ex, nil
+}
+
+// checkAnalysisImmutability scans the non-analysis packages for stores into analysis nodes.
+func (w *World) checkAnalysisImmutability() {
+	w.AnalysisImmutable = true
+	anaPath := repoModule + "/analysis"
+	declaredInAnalysis := func(t types.Type) bool {
+		for {
+			switch u := types.Unalias(t).(type) {
+			case *types.Pointer:
+				t = u.Elem()
+				continue
+			case *types.Named:
+				return u.Obj().Pkg() != nil && u.Obj().Pkg().Path() == anaPath
+			}
+			return false
+		}
+	}
+	for path, p := range w.Pkgs {
+		if path == anaPath {
+			continue
+		}
+		for _, f := range p.Syntax {
+			ast.Inspect(f, func(n ast.Node) bool {
+				var lhs []ast.Expr
+				switch x := n.(type) {
+				case *ast.AssignStmt:
+					lhs = x.Lhs
+				case *ast.IncDecStmt:
+					lhs = []ast.Expr{x.X}
+				}
+				for _, l := range lhs {
+					// x.f = ..., x.f[i] = ..., where x.f is a field of an analysis type
+					e := l
+					for {
+						switch y := e.(type) {
+						case *ast.IndexExpr:
+							e = y.X
+							continue
+						case *ast.ParenExpr:
+							e = y.X
+							continue
+						}
+						break
+					}
+					if se, ok := e.(*ast.SelectorExpr); ok {
+						if sel := p.TypesInfo.Selections[se]; sel != nil && sel.Kind() == types.FieldVal {
+							if declaredInAnalysis(sel.Recv()) {
+								// a store into a local VALUE copy is harmless; only pointer receivers reach shared nodes
+								if _, isPtr := types.Unalias(sel.Recv()).Underlying().(*types.Pointer); isPtr || e != l {
+									w.AnalysisImmutable = false
+									w.ImmutabilityNotes = append(w.ImmutabilityNotes, w.pos(l.Pos()))
+								}
+							}
+						}
+					}
+				}
+				return true
+			})
+		}
+	}
 }
